@@ -31,9 +31,9 @@ var idxKinds = []idxKind{{"rtree", geometry.RTree}, {"quadtree", geometry.QuadTr
 
 func mkSeries(pts []geometry.Point, closed bool, opts *geometry.IndexOptions) geometry.Series {
 	if closed {
-		return geometry.NewPoly(pts, nil, opts).Exterior
+		return newPolyScribbled(pts, nil, opts).Exterior
 	}
-	return geometry.NewLine(pts, opts)
+	return newLineScribbled(pts, opts)
 }
 
 type hit struct {
@@ -311,6 +311,45 @@ func decodeIndex(ix interface{}) (st idxStats) {
 
 // ---------------------------------------------------------------------------
 // layout families
+
+// bushyCorner: an open line in the box [0,2^17]^2 whose quadtree has a chain of
+// split nodes down to depth 16 in one corner (quad `corner` at every level),
+// with every sibling quad occupied at every level: 39 (+extra) short segments
+// in the depth-16 corner cell (2 x 2, on a 1/4 grid) and one short segment in
+// the middle of each of the three siblings at each of the 16 levels.
+func bushyCorner(corner, extra int) []geometry.Point {
+	const S = 131072.0
+	var pts []geometry.Point
+	// corner cell [0,2) x [0,2) in "corner coordinates" (u,v): distance from the corner along x / y
+	n := 40 + extra
+	for i := 0; i < n; i++ {
+		u := 0.25 + 0.25*float64(i%6) + 0.0625*float64((i/36)%3)
+		v := 0.25 + 0.25*float64((i/6)%6)
+		if i%2 == 1 {
+			v += 0.125
+		}
+		pts = append(pts, geometry.Point{X: u, Y: v})
+	}
+	// siblings, deepest level first: cell size s = 2, 4, ..., S/2
+	for s := 2.0; s < S; s *= 2 {
+		for _, q := range [][2]float64{{1, 0}, {0, 1}, {1, 1}} {
+			cu, cv := q[0]*s+s/2, q[1]*s+s/2
+			pts = append(pts, geometry.Point{X: cu, Y: cv}, geometry.Point{X: cu + s/8, Y: cv + s/16})
+		}
+	}
+	// map corner coordinates to the box: quad 0 = left/top, 1 = right/top, 2 = left/bottom, 3 = right/bottom
+	for i, p := range pts {
+		x, y := p.X, p.Y
+		if corner == 1 || corner == 3 {
+			x = S - x
+		}
+		if corner == 0 || corner == 1 {
+			y = S - y
+		}
+		pts[i] = geometry.Point{X: x, Y: y}
+	}
+	return pts
+}
 
 type family struct {
 	name string
@@ -682,7 +721,7 @@ func seriesCase(pts []geometry.Point, closed bool) rt.Case {
 }
 
 func runC04(r *rt.Run) {
-	r.Rule = "insert histories: every point sequence up to a depth over small lattices; 16 layout families x sizes crossing every structural threshold x <=1 (thorough <=2 for n<=66) displaced points at every position x 25 targets; each under {r-tree, quadtree} x MinPoints {1, n, n+1}, open and closed; probes: grid of query rectangles incl. infinite bounds and 1-ulp neighbours x every early-stop position; then predicate answers under every index and after Move by 7 offsets (exact, far beyond the extent, inexact in binary) incl. the moved series' own Search; non-trivial = series with at least one segment"
+	r.Rule = "insert histories: every point sequence up to a depth over small lattices; 16 layout families x sizes crossing every structural threshold (plus 12 fixed deep-and-bushy quadtree layouts: a depth-16 chain of split nodes in each corner with every sibling quad occupied at every level) x <=1 (thorough <=2 for n<=66) displaced points at every position x 25 targets; each under {r-tree, quadtree} x MinPoints {1, n, n+1}, open and closed; probes: grid of query rectangles incl. infinite bounds and 1-ulp neighbours x every early-stop position; then predicate answers under every index and after Move by 7 offsets (exact, far beyond the extent, inexact in binary) incl. the moved series' own Search; non-trivial = series with at least one segment"
 	r.Assume = []string{"oracle: brute force over SegmentAt(i).Rect() by definition", "index bytes are decoded only to measure which encodings occurred"}
 	var stats idxStats
 	r.Describe = runC04Describe
@@ -775,6 +814,15 @@ func runC04(r *rt.Run) {
 		}
 		for _, n := range large {
 			jobs = append(jobs, job{f: f, n: n, stopMode: 1, m: 2})
+		}
+	}
+	// fixed layouts: deep bushy quadtrees (see bushyCorner)
+	for corner := 0; corner < 4; corner++ {
+		corner := corner
+		for _, extra := range []int{0, 40, 300} {
+			extra := extra
+			f := family{fmt.Sprintf("bushy-corner-q%d+%d", corner, extra), func(int) []geometry.Point { return bushyCorner(corner, extra) }}
+			jobs = append(jobs, job{f: f, n: len(bushyCorner(corner, extra)), stopMode: 1, m: 3})
 		}
 	}
 	r.Bounds["family_jobs"] = len(jobs)
